@@ -593,6 +593,105 @@ Proof.
   generalize (p_c_f1 P). intros c. change (T RNum) with R in c. split; [reflexivity|lra].
 Qed.
 
+(* ------------------------------------------------------------------ *)
+(* composed: the constant-initial-mass driver with the BADA-3 flows     *)
+(* ------------------------------------------------------------------ *)
+
+Section Composed.
+  Variable psec : bool.
+  Variable E : engine.
+  Variable P : params RNum.
+  Variable pts : list (point RNum).
+  Variable ds : list R.
+  Variable dpt : point RNum.
+  Notation sgrf := (@bada_sgr RNum psec E P pts).
+
+  Lemma bada_sgr_length (masses : list R) : length (sgrf masses) = Nat.min (length pts) (length masses).
+  Proof. unfold bada_sgr. rewrite map_length, combine_length. reflexivity. Qed.
+
+  Lemma nth_map_gen {A : Type} (f : A -> R) (l : list A) (d : A) k : (k < length l)%nat -> nth k (map f l) 0 = f (nth k l d).
+  Proof. intros H. rewrite (nth_indep _ 0 (f d)) by (rewrite map_length; exact H). apply map_nth. Qed.
+
+  Lemma nth_bada_sgr (masses : list R) k : length masses = length pts -> (k < length pts)%nat ->
+    nth k (sgrf masses) 0 = @sgr_point RNum psec E P (nth k pts dpt) (nth k masses 0).
+  Proof.
+    intros Hl Hk. unfold bada_sgr.
+    assert (Hc : (k < length (combine pts masses))%nat) by (rewrite combine_length; lia).
+    assert (Hx : nth k (combine pts masses) (dpt, 0) = (nth k pts dpt, nth k masses 0)) by (apply combine_nth; lia).
+    etransitivity; [exact (nth_map_gen (fun pm : point RNum * R => @sgr_point RNum psec E P (fst pm) (snd pm))
+                                       (combine pts masses) (dpt, 0) k Hc)|].
+    cbv beta. f_equal; [exact (f_equal fst Hx)|exact (f_equal snd Hx)].
+  Qed.
+
+  Lemma update_forward_length (mass sgr : list R) : (length ds = length sgr - 1)%nat -> sgr <> [] ->
+    length (upfR mass sgr ds) = length sgr.
+  Proof.
+    intros Hl Hne. unfold update_forward. rewrite map_length, cumtrap_length; rewrite ?map_length; auto.
+    destruct sgr; [contradiction|discriminate].
+  Qed.
+
+  Lemma update_forward_length_n (mass sgr : list R) n : length sgr = n -> length ds = (n - 1)%nat -> (0 < n)%nat ->
+    length (upfR mass sgr ds) = n.
+  Proof.
+    intros Hs Hd Hn. rewrite update_forward_length; [exact Hs|rewrite Hs; exact Hd|].
+    intros H. rewrite H in Hs. simpl in Hs. lia.
+  Qed.
+
+  Definition good (n : nat) (m0 : R) (l : list R) : Prop := length l = n /\ hd 0 l = m0.
+
+  Lemma update_good n m0 mass : length pts = n -> length ds = (n - 1)%nat -> (0 < n)%nat ->
+    good n m0 mass -> good n m0 (upfR mass (sgrf mass) ds).
+  Proof.
+    intros Hp Hd Hn [Hl Hh]. split; [|rewrite update_forward_hd; exact Hh].
+    assert (Hs : length (sgrf mass) = n) by (rewrite bada_sgr_length, Hp, Hl; apply Nat.min_id).
+    exact (update_forward_length_n mass (sgrf mass) n Hs Hd Hn).
+  Qed.
+
+  Lemma loop_ci_from_good n m0 : length pts = n -> length ds = (n - 1)%nat -> (0 < n)%nat ->
+    forall fuel mass old,
+      (exists prev, good n m0 prev /\ mass = upfR prev (sgrf prev) ds) ->
+      exists prev, good n m0 prev /\ @loop_ci RNum sgrf ds mass old fuel = upfR prev (sgrf prev) ds.
+  Proof.
+    intros Hp Hd Hn. induction fuel as [|k IH]; intros mass old H; [exact H|].
+    assert (Hg : good n m0 mass).
+    { destruct H as (prev & Hg & ->). apply update_good; assumption. }
+    simpl. dif; [exists mass; split; [exact Hg|reflexivity]|].
+    apply IH. exists mass. split; [exact Hg|reflexivity].
+  Qed.
+
+  (* every step of what the constant-initial-mass driver returns is the trapezoid of the BADA-3 burn rates evaluated at an
+     iterate [prev] of length n that starts at the prescribed mass *)
+  Lemma iterate_ci_steps_bada n (m0 : R) n_iter : length pts = n -> length ds = (n - 1)%nat -> (0 < n)%nat ->
+    exists prev, length prev = n /\ hd 0 prev = m0 /\
+      forall k, (S k < n)%nat ->
+        nth k (@iterate_ci RNum sgrf ds n m0 n_iter) 0 - nth (S k) (@iterate_ci RNum sgrf ds n m0 n_iter) 0
+        = nth k ds 0 * (burnR (@sgr_point RNum psec E P (nth (S k) pts dpt) (nth (S k) prev 0))
+                        + burnR (@sgr_point RNum psec E P (nth k pts dpt) (nth k prev 0))) / 2.
+  Proof.
+    intros Hp Hd Hn.
+    destruct (loop_ci_from_good n m0 Hp Hd Hn (n_iter - 1)
+                (upfR (repeat m0 n) (sgrf (repeat m0 n)) ds)
+                (last (upfR (repeat m0 n) (sgrf (repeat m0 n)) ds) 0)) as (prev & [Hl Hh] & Hr).
+    { exists (repeat m0 n). split; [|reflexivity]. split; [apply repeat_length|]. destruct n; [lia|reflexivity]. }
+    exists prev. split; [exact Hl|]. split; [exact Hh|]. intros k Hk.
+    assert (Heq : @iterate_ci RNum sgrf ds n m0 n_iter = upfR prev (sgrf prev) ds) by exact Hr.
+    rewrite Heq.
+    rewrite update_forward_step by (rewrite bada_sgr_length, Hp, Hl, Nat.min_id; lia).
+    rewrite !nth_bada_sgr by lia. reflexivity.
+  Qed.
+
+  (* in the regime the code integrates (0 < fuel flow <= ground speed, i.e. at least 1 m/kg) the burn rate at a point is
+     fuel flow / ground speed; otherwise the code takes 0 *)
+  Lemma burn_rate_at_point (pt : point RNum) (m : R) :
+    0 < @fuel_flow RNum psec E P pt m <= t_gs pt ->
+    burnR (@sgr_point RNum psec E P pt m) = @fuel_flow RNum psec E P pt m / t_gs pt.
+  Proof.
+    intros [H0 H1]. unfold sgr_point. cbv zeta. rn.
+    replace (Reqb (@fuel_flow RNum psec E P pt m) 0) with false by (symmetry; apply Reqb_false; lra).
+    apply burn_rate_is_flow_over_speed; assumption.
+  Qed.
+End Composed.
+
 (* ---- non-vacuity ---- *)
 Example all_nonneg_nonvacuous : all_nonneg [100; 300].
 Proof. intros x [<-|[<-|[]]]; lra. Qed.
